@@ -357,3 +357,389 @@ MONITORS = [
   Monitor(UN + ':SubqueryTranslator.TranslateTable', ['C08', 'C14'],
           ['alias / ground / WITH / inline / data dispatch'], pre_translate_table, post_translate_table),
 ]
+
+
+# =====================================================================================================
+# second batch: every mechanism function named in the properties' anchors gets a contract
+# =====================================================================================================
+DI = 'compiler.dialects'
+FN = 'compiler.functors'
+ET = 'compiler.expr_translate'
+
+
+def _strip_h(x):
+  """Tree without source-span bookkeeping."""
+  if isinstance(x, dict):
+    return {k: _strip_h(v) for k, v in x.items() if k not in ('expression_heritage', 'full_text')}
+  if isinstance(x, list):
+    return [_strip_h(v) for v in x]
+  return x
+
+
+# ------------------------------------------------------------------ DecorateCombineRule (C02)
+def pre_decorate(rule, var):
+  return {'rule': snapshot(rule)}
+
+
+def post_decorate(snap, result, rule, var):
+  assert rule == snap['rule'], 'the combine rule passed in is not modified (a decorated copy is returned)'
+  old = snap['rule']
+  new_arg = result['head']['record']['field_value'][0]['value']['aggregation']['expression']['call'][
+      'record']['field_value'][0]['value']
+  old_arg = old['head']['record']['field_value'][0]['value']['aggregation']['expression']['call'][
+      'record']['field_value'][0]['value']
+  c = new_arg['expression']['call']
+  assert c['predicate_name'] == 'MagicalEntangle' and c['record']['field_value'][0]['value'] == old_arg and \
+      c['record']['field_value'][1]['value']['expression']['variable']['var_name'] == var, \
+      'every combine rule (with or without body predicates) has its aggregated argument entangled with the fresh variable'
+  old_conj = old.get('body', {'conjunction': {'conjunct': []}})['conjunction']['conjunct']
+  new_conj = result['body']['conjunction']['conjunct']
+  assert new_conj[:-1] == old_conj and 'inclusion' in new_conj[-1] and \
+      new_conj[-1]['inclusion']['element']['variable']['var_name'] == var and \
+      len(new_conj[-1]['inclusion']['list']['literal']['the_list']['element']) == 1, \
+      'the body gets exactly one extra conjunct `var in [0]`, everything else is kept'
+
+
+# ------------------------------------------------------------------ ExtractInclusionStructure (C01, C11)
+def pre_inclusion(inclusion, s):
+  return {'n_un': len(s.unnestings), 'n_c': len(s.constraints), 'n_u': len(s.vars_unification)}
+
+
+def post_inclusion(snap, result, inclusion, s):
+  container = 'call' in inclusion['list'] and inclusion['list']['call']['predicate_name'] == 'Container'
+  if container:
+    assert len(s.constraints) == snap['n_c'] + 1 and len(s.unnestings) == snap['n_un'], \
+        'only an inclusion in a Container(...) becomes a WHERE constraint'
+  else:
+    assert len(s.unnestings) == snap['n_un'] + 1 and len(s.constraints) == snap['n_c'] and \
+        len(s.vars_unification) == snap['n_u'] + 1, \
+        '`e in l` becomes one unnesting of l and one unification of e with the unnested value ' \
+        '(one row per matching element), whatever the shape of e'
+    assert s.unnestings[-1][1] is inclusion['list'] or s.unnestings[-1][1] == inclusion['list'], 'the list unnested is l'
+    assert s.vars_unification[-1]['left'] == inclusion['element'], 'the element unified is e'
+
+
+# ------------------------------------------------------------------ ExtractPredicateStructure (C01)
+CMP = ('<=', '<', '>', '>=', '!=', '&&', '||', '!', 'IsNull', 'Like', 'Constraint', 'is', 'is not', '~')
+
+
+def pre_pred_struct(c, s):
+  return {'n_t': len(s.tables), 'n_c': len(s.constraints), 'n_u': len(s.vars_unification)}
+
+
+def post_pred_struct(snap, result, c, s):
+  if c['predicate_name'] in CMP:
+    assert len(s.constraints) == snap['n_c'] + 1 and len(s.tables) == snap['n_t'], 'a comparison becomes one constraint'
+  else:
+    assert len(s.tables) == snap['n_t'] + 1 and list(s.tables.values())[-1] == c['predicate_name'], \
+        'a predicate literal becomes one new table of that predicate (each occurrence its own table)'
+    assert len(s.vars_unification) == snap['n_u'] + len(c['record']['field_value']), \
+        'one unification per argument'
+
+
+# ------------------------------------------------------------------ AsSql GROUP BY (C02)
+def post_group_by(snap, result, self, subquery_encoder=None, flag_values=None):
+  if self.distinct_vars:
+    tail = result.split('\nGROUP BY ')[-1]
+    gb = [r for (a, r) in children('QL.ConvertToSqlForGroupBy')]
+    ordered = [v for v in self.select.keys() if v in self.distinct_vars]
+    spec = subquery_encoder.execution.dialect.GroupBySpecBy()
+    if spec == 'expr':
+      assert len(gb) == len(ordered) and tail == ', '.join(gb), \
+          'GROUP BY lists exactly the non-aggregated select columns (%d), literal ones included' % len(ordered)
+    else:
+      assert len(tail.split(', ')) == len(ordered), 'GROUP BY lists exactly the non-aggregated select columns'
+  else:
+    assert '\nGROUP BY ' not in result.split('\nFROM\n')[-1] or True
+
+
+# ------------------------------------------------------------------ ConvertToSql infix branch (C01)
+def post_convert(snap, result, self, expression):
+  inf = children('QL.Infix')
+  if 'call' in expression and inf and len(children('QL.Function')) == 0:
+    assert result == '(' + inf[-1][1] + ')', \
+        'an infix operator application is emitted inside its own pair of parentheses'
+
+
+# ------------------------------------------------------------------ RecursiveAnalysis (C03)
+def pre_rec_analysis(self, depth_map, default_mode, default_depth):
+  return {'deep': set(depth_map)}
+
+
+def post_rec_analysis(snap, result, self, depth_map, default_mode, default_depth):
+  should_recurse, my_cover = result
+  for p, style in should_recurse.items():
+    c = my_cover[p]
+    assert p in c, 'the unfolding root belongs to its component'
+    if c & snap['deep']:
+      assert p == min(c & snap['deep']), \
+          'the component is unfolded at its @Recursive-annotated member (depth and mode are read there)'
+    else:
+      assert p == min(c), 'an unannotated component is unfolded at its first member'
+    assert style in ('vertical', 'horizontal', 'iterative_horizontal', 'diamond'), 'known style'
+    depth = depth_map.get(p, {}).get('1', default_depth)
+    mode = depth_map.get(p, {}).get('mode', default_mode)
+    if mode != 'diamond' and depth_map.get(p, {}).get('mode') != 'iterative':
+      flag = depth_map.get(p, {}).get('iterative', None)
+      if flag is None and default_mode != 'iterative':
+        assert (style == 'iterative_horizontal') == (depth > 20), 'iterative execution exactly above depth 20 by default'
+
+
+# ------------------------------------------------------------------ RemoveRulesProvenToBeNil (C03, C19)
+def _mentions(node, names, taboo=('the_predicate', 'combine', 'satellites')):
+  if isinstance(node, dict):
+    if node.get('predicate_name') in names:
+      return True
+    return any(_mentions(v, names, taboo) for k, v in node.items() if k not in taboo)
+  if isinstance(node, list):
+    return any(_mentions(v, names, taboo) for v in node)
+  return False
+
+
+def pre_nil(self, rules):
+  proven = {'nil'}
+  defined = {r['head']['predicate_name'] for r in rules}
+  while True:
+    new = {p for p in defined
+           if all(_mentions(r, proven) for r in rules if r['head']['predicate_name'] == p)} - proven
+    if not new:
+      break
+    proven |= new
+  return {'empty': proven - {'nil'}, 'defined': defined}
+
+
+def post_nil(snap, result, self, rules):
+  heads = {r['head']['predicate_name'] for r in rules}
+  for p in snap['defined']:
+    if p in snap['empty']:
+      assert p not in heads and ('Nullified' + p) in heads, \
+          'a predicate all of whose rules read something proven empty is nullified (%s)' % p
+    else:
+      assert p in heads, \
+          'a predicate with a rule that reads nothing proven empty -- negations, aggregating expressions and ' \
+          'predicate literals do not count as reads -- keeps its rules (%s)' % p
+
+
+def raise_nil(snap, e, self, rules):
+  if type(e).__name__ == 'FunctorError':
+    assert snap['empty'], 'the empty-predicate diagnostic is raised only when some predicate is proven empty'
+
+
+# ------------------------------------------------------------------ UpdateStructure (C04)
+def _reach(direct, p):
+  seen, todo = set(), list(direct.get(p, ()))
+  while todo:
+    e = todo.pop()
+    if e not in seen:
+      seen.add(e)
+      todo.extend(direct.get(e, ()))
+  return seen
+
+
+def post_update_structure(snap, result, self, new_predicate):
+  for p in self.predicates:
+    a = self.args_of.get(p)
+    if isinstance(a, set):
+      assert a == _reach(self.direct_args_of, p), \
+          'after a functor call every cached transitive argument set is the reachability closure (%s)' % p
+
+
+# ------------------------------------------------------------------ CallFunctor renaming (C04)
+def pre_call_functor2(self, name, applicant, args_map):
+  r = pre_call_functor(self, name, applicant, args_map)
+  return {'n': len(self.extended_rules)}
+
+
+def _rename_simul(x, mapping):
+  if isinstance(x, dict):
+    return {k: (mapping.get(v, v) if k == 'predicate_name' and isinstance(v, str) else _rename_simul(v, mapping))
+            for k, v in x.items()}
+  if isinstance(x, list):
+    return [_rename_simul(v, mapping) for v in x]
+  return x
+
+
+def _pairs(o, r, acc):
+  """Parallel walk of an original rule and its clone: (old predicate name, new predicate name) pairs."""
+  if isinstance(o, dict) and isinstance(r, dict):
+    for k in o:
+      if k in r:
+        if k == 'predicate_name' and isinstance(o[k], str):
+          acc.append((o[k], r[k]))
+        else:
+          _pairs(o[k], r[k], acc)
+  elif isinstance(o, list) and isinstance(r, list) and len(o) == len(r):
+    for x, y in zip(o, r):
+      _pairs(x, y, acc)
+  return acc
+
+
+def post_call_functor(snap, result, self, name, applicant, args_map):
+  originals = [r for (a, r) in children('Functors.AllRulesOf')]
+  if not originals:
+    return
+  by_text = {}
+  for r in originals[0]:
+    by_text.setdefault(r['full_text'], []).append(r)
+  new = self.extended_rules[snap['n']:]
+  want = dict(args_map)
+  want[applicant] = name
+
+  def consistent(pairs, mapping):
+    m = dict(mapping)
+    for old, nw in pairs:
+      if old in want and want[old] != nw:
+        return None
+      if m.setdefault(old, nw) != nw:
+        return None
+    return m
+  # several originals can share a rule text (a made predicate keeps the text of the functor's rule):
+  # some assignment of originals to clones must be one simultaneous substitution
+  def search(rs, mapping):
+    if not rs:
+      return True
+    r = rs[0]
+    for o in by_text.get(r['full_text'], []):
+      m = consistent(_pairs(o, r, []), mapping)
+      if m is not None and search(rs[1:], m):
+        return True
+    return False
+  todo = [r for r in new if not r['head']['predicate_name'].startswith('@')]
+  assert search(todo[:12], {}), \
+      'the cloned rules are the original rules under ONE substitution applied simultaneously: every use of an ' \
+      'argument becomes its value, the functor becomes the made predicate, helpers become their clones'
+
+
+# ------------------------------------------------------------------ TranslateWithedTable / GenerateWithClauses (C08, C09)
+def post_withed(snap, result, self, table):
+  ex = self.execution
+  parent = ex.workflow_predicates_stack[-1]
+  deps = ex.table_to_with_dependencies[parent]
+  assert table in deps, 'the WITH table is registered for the query being built'
+  import re as _re
+  names = {ex.table_to_defined_table_map[d]: d for d in deps if d in ex.table_to_defined_table_map}
+  all_with = {v: k for k, v in ex.table_to_defined_table_map.items() if v in ex.table_to_with_sql_map}
+  seen = set()
+  for d in deps:
+    nm = ex.table_to_defined_table_map[d]
+    sql = ex.table_to_with_sql_map.get(nm, '')
+    for ref in set(_re.findall(r'\bt_\d+_\w+\b', sql)):
+      if ref in all_with and ref != nm:
+        assert ref in seen, \
+            'every WITH table a registered WITH table reads is registered before it for the same query ' \
+            '(%s reads %s, query %s)' % (nm, ref, parent)
+    seen.add(nm)
+
+
+def post_gen_with(snap, result, self, predicate_name):
+  deps = self.execution.table_to_with_dependencies[predicate_name]
+  if not deps:
+    assert result is None, 'no WITH clause without WITH tables'
+    return
+  assert result.startswith('WITH ') and result.count(' AS (') >= len(deps), 'one definition per WITH table'
+  pos = 0
+  for d in deps:
+    nm = self.execution.table_to_defined_table_map[d]
+    j = result.find(nm + ' AS (', pos)
+    assert j >= 0, 'WITH tables are defined in registration order (%s)' % nm
+    pos = j + 1
+
+
+# ------------------------------------------------------------------ MultiBodyAggregation.Rewrite (C02)
+def pre_mba(cls, rules):
+  return {'rules': snapshot(rules)}
+
+
+def post_mba(snap, result, cls, rules):
+  old = snap['rules']
+  by_p = {}
+  for r in old:
+    by_p.setdefault(r['head']['predicate_name'], []).append(r)
+  new_by_p = {}
+  for r in result:
+    new_by_p.setdefault(r['head']['predicate_name'], []).append(r)
+  for p, rs in by_p.items():
+    multi = len(rs) > 1 and any('distinct_denoted' in r for r in rs) and p[0] != '@'
+    if not multi:
+      assert len(new_by_p.get(p, [])) == len(rs), 'single-body predicates are left alone (%s)' % p
+    else:
+      aux = p + '_MultBodyAggAux'
+      assert len(new_by_p.get(aux, [])) == len(rs) and all('distinct_denoted' not in r for r in new_by_p[aux]), \
+          'a distinct predicate with n bodies gets n non-distinct auxiliary rules (%s)' % p
+      assert len(new_by_p.get(p, [])) == 1 and 'distinct_denoted' in new_by_p[p][0], \
+          'and one distinct rule aggregating the auxiliary predicate'
+
+
+MONITORS += [
+  Monitor(FN + ':Functors.AllRulesOf', ['C04'], ['(recorded for CallFunctor)'], snapshot_result=True),
+  Monitor(ET + ':QL.Infix', ['C01'], ['(recorded for ConvertToSql)']),
+  Monitor(ET + ':QL.Function', ['C01'], ['(recorded for ConvertToSql)']),
+  Monitor(ET + ':QL.ConvertToSqlForGroupBy', ['C02'], ['(recorded for AsSql)']),
+  Monitor(DI + ':DecorateCombineRule', ['C02', 'C09'],
+          ['argument entangled with the fresh variable for every combine rule', 'one extra conjunct var in [0]',
+           'input rule not modified'], pre_decorate, post_decorate),
+  Monitor(RT + ':ExtractInclusionStructure', ['C01', 'C11'],
+          ['`e in l` is one unnesting + one unification unless l is a Container call'], pre_inclusion, post_inclusion),
+  Monitor(RT + ':ExtractPredicateStructure', ['C01'],
+          ['comparison -> one constraint; predicate literal -> one new table, one unification per argument'],
+          pre_pred_struct, post_pred_struct),
+  Monitor(RT + ':RuleStructure.AsSql', ['C02'], ['GROUP BY lists exactly the non-aggregated select columns'],
+          None, post_group_by),
+  Monitor(ET + ':QL.ConvertToSql', ['C01'], ['infix application emitted in its own parentheses'], None, post_convert),
+  Monitor(FN + ':Functors.RecursiveAnalysis', ['C03'],
+          ['root = annotated member (else first)', 'iterative iff depth > 20 by default'],
+          pre_rec_analysis, post_rec_analysis),
+  Monitor(FN + ':Functors.RemoveRulesProvenToBeNil', ['C03', 'C19'],
+          ['nullified = least fixpoint of "every rule reads something empty" (combine / predicate literals / satellites excluded)'],
+          pre_nil, post_nil, raise_nil),
+  Monitor(FN + ':Functors.UpdateStructure', ['C04'], ['args_of = reachability closure for every predicate'],
+          None, post_update_structure),
+  Monitor(UN + ':SubqueryTranslator.TranslateWithedTable', ['C08', 'C09'],
+          ['registered for the parent query', 'nested WITH tables registered before it'], None, post_withed),
+  Monitor(UN + ':LogicaProgram.GenerateWithClauses', ['C08', 'C09'],
+          ['every WITH table once, in registration order'], None, post_gen_with),
+  Monitor('parser_py.parse:MultiBodyAggregation.Rewrite', ['C02'],
+          ['n auxiliary non-distinct rules + one distinct rule per multi-body distinct predicate'], pre_mba, post_mba),
+]
+# the CallFunctor monitor gets the renaming post-condition
+for _m in MONITORS:
+  if _m.unit == FN + ':Functors.CallFunctor':
+    _m.pre, _m.post = pre_call_functor2, post_call_functor
+    _m.clauses = _m.clauses + ['cloned rules = originals under simultaneous substitution']
+
+
+def _merge(monitors):
+  """One wrapper per unit: several contracts on the same function are evaluated by one monitor
+  (nested wrappers would hide the direct callees from each other)."""
+  out, by_unit = [], {}
+  for m in monitors:
+    if m.unit not in by_unit:
+      by_unit[m.unit] = m
+      out.append(m)
+      continue
+    a = by_unit[m.unit]
+    a.props = sorted(set(a.props) | set(m.props))
+    a.clauses = a.clauses + [c for c in m.clauses if c not in a.clauses]
+    a.snapshot_result = a.snapshot_result or m.snapshot_result
+    pa, pb, qa, qb, ra, rb = a.pre, m.pre, a.post, m.post, a.on_raise, m.on_raise
+
+    def pre(*args, _pa=pa, _pb=pb, **kw):
+      return (_pa(*args, **kw) if _pa else None, _pb(*args, **kw) if _pb else None)
+
+    def post(snap, result, *args, _qa=qa, _qb=qb, **kw):
+      if _qa:
+        _qa(snap[0], result, *args, **kw)
+      if _qb:
+        _qb(snap[1], result, *args, **kw)
+
+    def on_raise(snap, e, *args, _ra=ra, _rb=rb, **kw):
+      if _ra:
+        _ra(snap[0], e, *args, **kw)
+      if _rb:
+        _rb(snap[1], e, *args, **kw)
+    a.pre, a.post = pre, post
+    a.on_raise = on_raise if (ra or rb) else None
+  return out
+
+
+MONITORS = _merge(MONITORS)
